@@ -514,9 +514,10 @@ func paramsWithIgnore(ig []*chainhash.Hash) *chaincfg.Params {
 
 // Node of a generated block tree.
 type Node struct {
-	Parent int // index of parent node; -1 = genesis; -2 = unknown hash
-	Bits   uint32
-	Hdr    Hdr
+	Parent    int // index of parent node; -1 = genesis; -2 = unknown hash
+	Bits      uint32
+	Hdr       Hdr
+	DupMerkle int // k>0: carry the merkle root of node k-1 (two blocks with one merkle root); 0: its own
 }
 
 // buildTree fills in headers (parents first: parent index < own index, or negative).
@@ -534,6 +535,9 @@ func buildTree(nodes []Node, salt uint32, rng *rand.Rand, extremes bool) {
 			h.Prev = nodes[nodes[i].Parent].Hdr.Hash()
 		}
 		h.Merkle = sha256.Sum256([]byte(fmt.Sprintf("merkle-%d-%d", salt, i)))
+		if k := nodes[i].DupMerkle; k > 0 && k-1 < i {
+			h.Merkle = nodes[k-1].Hdr.Merkle
+		}
 		h.Time = 1600000000 + uint32(i)*600 + salt%600
 		h.Bits = nodes[i].Bits
 		h.Nonce = salt*1000003 + uint32(i)
